@@ -710,7 +710,7 @@ def r18a(ctx, readers, cfgs):
                                   fn=READER, key=f"{f_}{e and ' ' + e}: {cls} case {n} [{tag}]")
         # names outside the configuration: antisymmetric / non-symmetric by the number of index groups; group order
         for name in ("x", "Zero", "t2eri1", cfg["gs_amplitude"] + "x", "a1"):
-            read_check(ctx, rule, rd, tensor("AntiSymmetricTensor", name, (i, jb), (a, b)), f"other {name} two groups",
+            read_check(ctx, rule, rd, tensor("AntiSymmetricTensor", name, (i, j), (a, b)), f"other {name} two groups",
                        f"unconfigured name {name} with two index groups is antisymmetric, first group upper")
             read_check(ctx, rule, rd, nonsym(name, (i, a)), f"other {name} one group",
                        f"unconfigured name {name} with one index group is non-symmetric")
